@@ -25,3 +25,47 @@ mod strip;
 pub fn verif_take_translated_hir() -> Option<regex_syntax::hir::Hir> {
     config::verif::take_translated()
 }
+
+/// Verification hook: run the inner literal extractor on an arbitrary HIR.
+/// The first component is the tagged sequence of `Extractor::extract`
+/// (`None` = infinite; each literal with its exactness; then the `prefix`
+/// flag), the second the sequence returned by `extract_untagged`.
+#[cfg(ripgrep_verif)]
+pub fn verif_extract_inner_literals(
+    hir: &regex_syntax::hir::Hir,
+) -> ((Option<Vec<(Vec<u8>, bool)>>, bool), Option<Vec<(Vec<u8>, bool)>>) {
+    literal::verif_extract(hir)
+}
+
+/// Verification hook: `non_matching_bytes` of an arbitrary HIR as a 256-entry
+/// membership table.
+#[cfg(ripgrep_verif)]
+pub fn verif_non_matching_bytes(hir: &regex_syntax::hir::Hir) -> Vec<bool> {
+    let set = non_matching::non_matching_bytes(hir);
+    (0..=255u8).map(|b| set.contains(b)).collect()
+}
+
+/// Verification hook: `strip_from_match` on an arbitrary HIR. The terminator
+/// is CRLF when `crlf` is set and the given byte otherwise.
+#[cfg(ripgrep_verif)]
+pub fn verif_strip_from_match(
+    hir: regex_syntax::hir::Hir,
+    crlf: bool,
+    byte: u8,
+) -> Result<regex_syntax::hir::Hir, Error> {
+    let lt = if crlf {
+        grep_matcher::LineTerminator::crlf()
+    } else {
+        grep_matcher::LineTerminator::byte(byte)
+    };
+    strip::strip_from_match(hir, lt)
+}
+
+/// Verification hook: the ban check on an arbitrary HIR.
+#[cfg(ripgrep_verif)]
+pub fn verif_ban_check(
+    hir: &regex_syntax::hir::Hir,
+    byte: u8,
+) -> Result<(), Error> {
+    ban::check(hir, byte)
+}
